@@ -105,8 +105,9 @@ def _reset_if_changed():
     return False, now
 
 
-def _observe(route, fn):
-    """Run fn() under interposition; classify what it touched by resolved location."""
+def _observe(route, fn, allow=()):
+    """Run fn() under interposition; classify what it touched by resolved location.  allow: files the call is asked to READ (the
+    source of an -o command): touching them is not being steered anywhere."""
     L = _layout()
     base, root, out = L["base"], L["root"], L["out"]
     before = L["snap"]
@@ -125,6 +126,8 @@ def _observe(route, fn):
     ntouch = 0
     for e in rec.events:
         if e["op"] in CONTENT_OPS and e["res"] == "ok":
+            if e["path"] in allow and e["path2"] in ("-", "tmp?"):
+                continue
             ntouch += 1
             for pth in (e["path"], e["path2"]):
                 if pth in ("-", "tmp?"):
@@ -170,6 +173,10 @@ def replay_path(item):
         r = CliRunner().invoke(cli, ["normalize", os.path.join(L["root"], "f.oct.md"), "-o", path], catch_exceptions=True)
         return r.exit_code != 0, r.output
 
+    def clis():
+        r = CliRunner().invoke(cli, ["seal", os.path.join(L["root"], "f.oct.md"), "-o", path], catch_exceptions=True)
+        return r.exit_code != 0, r.output
+
     obs = [_observe("write_content", tool(content=NEW)),
            _observe("write_content_dry", tool(content=NEW, corrections_only=True)),
            _observe("write_changes", tool(changes={"A": 5})),
@@ -177,7 +184,9 @@ def replay_path(item):
            _observe("write_normalize", tool()),
            _observe("write_normalize_dry", tool(corrections_only=True)),
            _observe("validate_file", val),
-           _observe("cli_write", cliw)]
+           _observe("cli_write", cliw),
+           _observe("cli_normalize_o", clin, allow=(os.path.join(L["root"], "f.oct.md"),)),
+           _observe("cli_seal_o", clis, allow=(os.path.join(L["root"], "f.oct.md"),))]
     return {"i": i, "space": "paths", "case": case, "obs": obs, "path": path}
 
 
@@ -309,7 +318,27 @@ def frozen_cases():
             "slash": "frozen@sha256:" + dg[:8] + "/" + dg[9:], "nonhex": "frozen@sha256:" + "g" * 64, "empty": "frozen@sha256:",
             "latest_missing": "latest", "newline": "frozen@sha256:" + dg + "\n"}
     recs = []
-    for k, ref in refs.items():
+
+    def tamper(keep_mtime):
+        """same process, after the reference was resolved once: other bytes of the same length in the cache file"""
+        fp = os.path.join(cache, dg[:16] + ".oct.md")
+        st = os.stat(fp)
+        with open(fp, "wb") as f:
+            f.write(good.replace(b"A::1", b"A::9"))
+        if keep_mtime:
+            os.utime(fp, ns=(st.st_atime_ns, st.st_mtime_ns))
+
+    items = list(refs.items()) + [("right_after_tamper_same_size_same_mtime", lambda: tamper(True)), ("right_after_tamper_same_size", lambda: tamper(False))]
+    for k, ref in items:
+        if callable(ref):
+            with open(os.path.join(cache, dg[:16] + ".oct.md"), "wb") as f:      # restore, resolve once (a memo may now exist), tamper
+                f.write(good)
+            try:
+                resolve_hermetic_standard(refs["right"], Path(cache))
+            except Exception:
+                pass
+            ref()
+            ref = refs["right"]
         try:
             p = resolve_hermetic_standard(ref, Path(cache))
             rp = os.path.realpath(str(p))
@@ -403,5 +432,5 @@ def run(ctx):
                      "schema-name probes run with a project specs/schemas directory in the cwd plus decoy files that only a "
                      "traversal could reach"],
         extra_coverage={"routes": ["write_content", "write_content_dry", "write_changes", "write_changes_dry", "write_normalize",
-                                   "write_normalize_dry", "validate_file", "cli_write", "validate_source_uri",
+                                   "write_normalize_dry", "validate_file", "cli_write", "cli_normalize_o", "cli_seal_o", "validate_source_uri",
                                    "load_schema_by_name", "octave_validate(schema=name)", "resolve_hermetic_standard"]})
